@@ -27,6 +27,7 @@ PARAMS = ["xorname", "timestamp", "quoting_metrics", "rewards_address"]
 def run(R):
     F = R.F
     history_rules(R)
+    precision_and_claim_rules(R)
     quote_binding_rules(R, "C13")
     # (3) proof
     verify_for_rules(R, "C13")
@@ -79,6 +80,8 @@ def run(R):
                               lambda b, f=f: {d for d, r, p in field_reads(b, f, roots=old)}, "Ge",
                               "new.%s >= old.%s" % (f, f), close=False)
                 R.gate_reject("C13.history." + f, hv, RetSink("true"), [gd], descr="a later quote reporting less %s is flagged (returns false)" % f)
+                # ... and every `true` is answered only after that comparison held (no escape hatch placed before it)
+                R.gate("C13.history." + f + ".always", hv, RetSink("true"), [[gd]], descr="historical_verify is true only after new.%s >= old.%s was established" % (f, f))
 
     # (5) signer
     cq = R.body("C13.signer", "ant_node::quote::<impl ant_node::node::Node>::create_quote_for_storecost")
@@ -360,3 +363,55 @@ def quote_binding_rules(R, pfx="C13"):
         R.viol(pfx + ".quotes_by_peer", "filter-missing", "quotes_by_peer has no closure comparing quote.peer_id() with the peer")
         R.inst(pfx + ".quotes_by_peer", "K4 gate", "quotes_by_peer filter", 0, False)
 
+
+
+def precision_and_claim_rules(R):
+    """(a) the timestamp enters the signed bytes as integer seconds (Duration::as_secs → to_le_bytes): no float or sub-second step on
+    the way, so changing the timestamp by a second changes what is signed; (b) quotes_verification checks each received quote against
+    the peer id it was *claimed* for (the tuple's id), not against the id derived from the quote's own key."""
+    from rules import _chain_calls, PL, closures_passed
+    F = R.F
+    bsg = R.body("C13.signing.precision", PQ + "::bytes_for_signing")
+    if bsg is not None:
+        prep(bsg)
+        from flow import backward_calls
+        ts = PL(bsg, 1)
+        names = set()
+        # forward: callees that receive (a value derived from) the timestamp
+        ta = Taint(bsg, through="all")
+        tsv = ta.closure(ts)
+        for blk in bsg.blocks:
+            t = blk["term"]
+            if t["k"] == "call" and not blk["cleanup"] and any(op_local(a) in tsv for a in t["args"]):
+                names.add(t["ncallee"] or "")
+        lossy = sorted(n for n in names if any(x in n for x in ("as_secs_f32", "as_secs_f64", "f32", "f64", "as_millis", "as_micros", "subsec", "as_nanos")))
+        ok = any(n.endswith("Duration::as_secs") for n in names) and not lossy
+        if not ok:
+            R.viol("C13.signing.precision", "timestamp-lossy", "bytes_for_signing does not encode the timestamp as exact integer seconds (%s)" % (lossy[:1] or "Duration::as_secs missing"), bsg, bsg.lines[0])
+        R.inst("C13.signing.precision", "K6 flows-to", "timestamp → duration_since(EPOCH).as_secs() → bytes, no lossy conversion", len(names), ok)
+    QV = "ant_node::quote::quotes_verification"
+    okc, nc_ = True, 0
+    for b in F.item(QV):
+        prep(b)
+        pid_calls = Taint(b, through="all").closure(call_results([PQ + "::peer_id"])(b))
+        for blk in b.blocks:
+            t = blk["term"]
+            if t["k"] == "call" and not blk["cleanup"] and callee_matches(t, [PQ + "::check_is_signed_by_claimed_peer"]):
+                nc_ += 1
+                # the claimed id: field .0 of the (PeerId, PaymentQuote) element the closure was handed
+                claimed = set()
+                for b2 in b.blocks:
+                    for st in b2["stmts"]:
+                        rv = st["rv"]
+                        pl = rv["a"][1] if rv["k"] == "use" and rv["a"][0] in ("cp", "mv") else rv.get("p") if rv["k"] == "ref" else None
+                        if pl and ".0" in pl[1:] and "PeerId" in b.locals.get(str(st["d"][0]), ""):
+                            claimed.add(st["d"][0])
+                claimed = Taint(b).closure(claimed)
+                if op_local(t["args"][1]) in pid_calls or op_local(t["args"][1]) not in claimed:
+                    okc = False
+                    R.viol("C13.claimed", "self-claimed", "quotes_verification verifies a quote against the peer id derived from the quote's own key instead of the id it was claimed for", b, t["l"])
+        # also inside closures handed to Result combinators
+    if nc_ == 0 and F.item(QV):
+        okc = False
+        R.viol("C13.claimed", "anchor-missing:check", "quotes_verification no longer calls check_is_signed_by_claimed_peer", F.item(QV)[0], F.item(QV)[0].lines[0])
+    R.inst("C13.claimed", "K6 flows-to", "received quotes are verified for the peer id they were claimed for", nc_, okc)
